@@ -236,6 +236,9 @@ class CandInterp(Interp):
             return out
         if name == "sorted":
             return self._sorted(args, kwargs, node)
+        if name.split(".")[-1] in ("isnan", "isinf", "isfinite") and len(args) == 1 and isinstance(args[0], _Score):
+            # the property speaks of scores that are numbers: a candidate's score is finite
+            return name.split(".")[-1] == "isfinite"
         return super().external_call(name, args, kwargs, node)
 
     def call_func(self, f, args, kwargs, node, self_obj=None):
